@@ -391,7 +391,8 @@ def check_inequalities(case):
     for s, k, e in cuts:
         guards += [slice_guard(cost, X, s, e), slice_guard(cost, X, s, k), slice_guard(cost, X, k, e)]
     vmin = min(guards)
-    if cost != "L2Cost" and vmin < 1e-8 * M * M:
+    # "well above the variance floor": relative to the data's magnitude AND to the library's absolute floor of 1e-16
+    if cost != "L2Cost" and (vmin < 1e-8 * M * M or vmin < 1e-10):
         return {"nontrivial": False, "classes": classes + ["near_degenerate_skipped"]}
     tol_abs = 8 * B if cost == "L2Cost" else 8 * n * B / vmin
     with sut("scorers fit/evaluate"):
